@@ -1,6 +1,7 @@
 package main
 
 import (
+	"encoding/hex"
 	"encoding/json"
 	"fmt"
 	"math/rand"
@@ -25,6 +26,15 @@ func cmdRun1(args []string) int {
 		}
 		recordStages()
 		defer setHook(nil)
+		if len(m.RawHex) > 0 { // exact bytes of the original call
+			raw := make([]string, len(m.RawHex))
+			for i, h := range m.RawHex {
+				b, _ := hex.DecodeString(h)
+				raw[i] = string(b)
+			}
+			m.Expr = raw[0]
+			m.List = raw[1:]
+		}
 		var ev Event
 		switch m.Fn {
 		case "Satisfies":
